@@ -654,6 +654,60 @@ def atoms_equal(a: ast.AST, b: ast.AST) -> bool:
     return False
 
 
+def same_literal(a: ast.AST, ta: bool, b: ast.AST, tb: bool) -> bool:
+    """Do `a` having truth `ta` and `b` having truth `tb` state the same fact?  (`i < m` true is `i >= m` false.)"""
+    if atoms_equal(a, b):
+        return ta == tb
+    ca, cb = cmp_of(a), cmp_of(b)
+    if ca is not None and cb is not None:
+        if not ta:
+            ca = ca.negate()
+        if not tb:
+            cb = cb.negate()
+        return ca == cb or ca.as_int() == cb.as_int()
+    return False
+
+
+def entails(atoms, target: ast.AST, truth: bool = True, depth: int = 2) -> bool:
+    """Is `target` known to have value `truth`, given the facts `atoms` ((atom, truth, ...) tuples)?  Direct match, or
+    unit propagation through a conjunction known false / a disjunction known true: if `A and B and C` is false and
+    B, C are known true, A is false."""
+    lits = [(t[0], t[1]) for t in atoms]
+    for (a, tr) in lits:
+        if same_literal(a, tr, target, truth):
+            return True
+    if depth <= 0:
+        return False
+    for (a, tr) in lits:
+        if not isinstance(a, ast.BoolOp):
+            continue
+        conj = isinstance(a.op, ast.And)
+        if conj == tr:
+            continue    # and-true / or-false were already split into atoms by nnf_atoms
+        # and-false: some conjunct is false; or-true: some disjunct is true.  `want`: the value the odd one out must take
+        want = not conj
+        parts = []
+        for v in a.values:
+            l = nnf_atoms(v, True)
+            if len(l) != 1:
+                parts = None
+                break
+            parts.append(l[0])
+        if not parts:
+            continue
+        for i, (pa, pt) in enumerate(parts):
+            # (pa has truth pt) == part i true.  part i must be `want`  =>  pa has truth (pt if want else not pt)
+            implied = pt if want else (not pt)
+            if not same_literal(pa, implied, target, truth):
+                continue
+            rest = [p_ for j, p_ in enumerate(parts) if j != i]
+            others = [x for x in lits if x[0] is not a]
+            # every other part must be known to be `not want`
+            if all(entails(others, qa, (qt if not want else (not qt)), depth - 1) for (qa, qt) in rest):
+                return True
+    return False
+
+
 def fact(src: str) -> Tuple[ast.AST, bool]:
     """Parse a fact like 'start is not None' into its canonical (atom, truth) form."""
     atoms = nnf_atoms(ast.parse(src, mode='eval').body, True)
